@@ -285,6 +285,8 @@ class World:
             ("dateutil.rrule", "rrule"): Builtin("rrule", models.make_rrule),
             ("dateutil.rrule", "MONTHLY"): 1,
             ("typing", "cast"): Builtin("cast", lambda it, a, k: a[1]),
+            ("time", "perf_counter"): Builtin("perf_counter", _perf_counter),
+            ("functools", "wraps"): Builtin("wraps", lambda it, a, k: Builtin("wraps.deco", lambda it2, a2, k2: a2[0])),
             ("copy", "copy"): Builtin("copy", _copy),
             ("math", "log"): Builtin("log", _log),
             ("math", "exp"): Builtin("exp", _exp),
@@ -686,6 +688,16 @@ class World:
                     names.add(n.arg)
             self._locals_cache[k] = names
         return self._locals_cache[k]
+
+
+def _perf_counter(it, a, k):
+    """time.perf_counter(): a monotone clock; every read is recorded in the ghost list"""
+    reads = it.ghost.setdefault("perf_reads", [])
+    c = z3.Real("clock%d" % len(reads))
+    if reads:
+        it.assume(c >= reads[-1])
+    reads.append(c)
+    return c
 
 
 def _now(it, a, k):
